@@ -39,7 +39,9 @@ CLAIMS = {
             "the position invariant kept by every generated move and null move; that generated moves keep the king safe is C01's gen_legal). "
             "No 'modulo fuel' either: the search of the model terminates (explicit recursion bound 61442 for the root: a potential of men and pawn advances, the depth and the half-move clock decrease "
             "lexicographically) and its result does not depend on the fuel beyond that bound, so for every limit, history and admissible table with at least one slot the search DOES return, and "
-            "its answer is legal (C03_search_always_answers_with_a_legal_move). The tie to the binary: the real search with zero/near-zero budgets, clocks 95..105, repetition roots and pre-filled tables.",
+            "its answer is legal (C03_search_always_answers_with_a_legal_move). Session level: in every state the command loop reaches along any script (position lines within D), with whatever "
+            "history and table earlier commands left, the search returns and answers with a legal move, and an evaluated go depth/nodes prints bestmove with a legal move as its last line "
+            "(C03_search_from_every_session_state_answers, C03_every_go_of_a_session_answers_with_a_legal_move). The tie to the binary: the real search with zero/near-zero budgets, clocks 95..105, repetition roots and pre-filled tables.",
             "DESIGN.md section 6 C03 and section 9", ""),
     "C06": ("proof", "Coq: the printed FEN parses back to the very same position record for every valid position incl. every subset of castling rights in standard and Chess960 geometry (board loop invariant, castling-letter lemmas, field splitting, flip for Black to move); differential round trips and an independent canonical X-FEN printer",
             "Proof on the model for the first sentence of the property: for every valid position (record RTC: well-formed boards, validate = None, correct key, clocks within i32, held "
@@ -114,10 +116,12 @@ CLAIMS = {
             "beyond a node limit, answer = first move of the last pv; every reported score within [-MATE, MATE] (strictly inside +-INF) and the table left "
             "behind satisfies TBnd again, for every limit, history and admissible table, with no hypothesis left (GenLegal.v). Time clause: wall-clock measurement "
             "(budget + 250 ms). Depth limits >= MAX_DEPTH: recorded known finding. The search returns for every sufficient fuel with the same result (C14_search_always_reports_bounded_scores).", "DESIGN.md section 6 C14", ""),
-    "C15": ("proof", "Coq proof for the command layer (only `position` with a rejected FEN can panic) + both binaries on generated scripts",
+    "C15": ("proof", "Coq proof for the command layer (only `position` with a rejected FEN can panic), a session invariant kept along every script, termination of the search + both binaries on generated scripts",
             "PARTIAL by nature. Proved: in the model of the command loop no line other than `position` with a FEN the parser rejects reaches a "
             "panic; and the search of the model never gets stuck: root, negamax and qsearch return for every limit, window and history on positions satisfying the invariant with any table that has "
-            "at least one slot, with explicit recursion-depth bounds (the only way to a stuck search left in the model is a zero-length table). Arithmetic traps inside the Rust search/movegen, the real stack, memory, pipes and EOF cannot be carried by the model: covered by running the "
+            "at least one slot, with explicit recursion-depth bounds (the only way to a stuck search left in the model is a zero-length table). Session level (SessionInv.v): along EVERY script the "
+            "state of the command loop stays in an invariant (position in D, bounded table scores, table length = slots of the Hash option hence never zero, Hash in 1..4096, Chess960 flag consistent), from the "
+            "state phase 1 hands over; so at every point of every script the only panic is `position` with a rejected FEN, and scripts whose position lines say startpos never panic. Arithmetic traps inside the Rust search/movegen, the real stack, memory, pipes and EOF cannot be carried by the model: covered by running the "
             "optimised and the checked binary on generated scripts (exit status, stderr, readyok/bestmove counts, transcript vs model).",
             "DESIGN.md section 6 C15", ""),
     "C16": ("proof", "Coq proof: states are identical after ucinewgame given equal options; position depends on the flag only; process-level differential",
